@@ -107,6 +107,21 @@ fn edit(r: usize, c: usize) {
         must("delete_row;resize", || { let mut m = a.matrix(); m.delete_row(0); m.resize(r, c); m },
             |m| Model::from_fn(r, c, |x, y| if x + 1 < r { a.e[x + 1][y] } else { z() }).expect("delete_row(0);resize", &m));
     }
+    // shrink-then-grow histories: what the first call leaves behind in the buffer (beyond the rows/columns it reports) must not
+    // come back - the single steps start from a freshly built matrix and cannot see that hidden state
+    for nr in 0..=r { for nc in 0..=c { if nr < r || nc < c {
+        let small = Model::from_fn(nr, nc, |x, y| a.e[x][y]);
+        for (gr, gc) in [(r, c), (r + 1, nc), (nr, c + 1)] {
+            must("resize;resize", || { let mut m = a.matrix(); m.resize(nr, nc); m.resize(gr, gc); m },
+                |m| Model::from_fn(gr, gc, |x, y| if x < nr && y < nc { a.e[x][y] } else { z() }).expect(&format!("resize({},{});resize({},{})", nr, nc, gr, gc), &m));
+        }
+        must("resize;==", || { let mut m = a.matrix(); m.resize(nr, nc); let fresh = small.matrix(); (m == fresh, fresh == m) },
+            |(e1, e2)| { prove(&format!("resize({},{}) equals (==) the freshly built matrix with the same entries", nr, nc), if e1 && e2 { B::True } else { B::False }); });
+    } } }
+    if r > 0 {
+        must("delete_row;==", || { let mut m = a.matrix(); m.delete_row(r - 1); let fresh = Model::from_fn(r - 1, c, |x, y| a.e[x][y]).matrix(); m == fresh },
+            |e| { prove("delete_row(last) equals (==) the freshly built matrix with the same entries", if e { B::True } else { B::False }); });
+    }
     // scalar division (divisor assumed non-zero: a zero divisor is outside the definition)
     assume(ne(s, z()));
     must("&a / s", || &a.matrix() / s, |m| {
